@@ -1127,6 +1127,13 @@ def _run_acq(spec, o):
                     a, b = derivs[li], derivs[li + 1]
                     if a.finite and b.finite and b.noise <= 0.1 * max(a.err, 1e-300):
                         a.trunc = max(a.trunc, abs(a.value - b.value))
+                # value quantisation seen at the next coarser step (its 4th difference) also limits the
+                # finer step: far in the tail EI moves in quanta of ulp(mean) * Phi(u), and a fine
+                # stencil can lie on a single quantum (all differences exactly 0)
+                for li in range(len(derivs) - 1, 0, -1):
+                    a, b = derivs[li - 1], derivs[li]
+                    if a.finite and b.finite:
+                        b.noise = max(b.noise, 3.0 * (a.d4 / 4.0) / b.h)
                 dres = fd.pick(derivs, lambda r, _g=gi: (atol + ACQ_RTOL * max(abs(_g) if math.isfinite(_g) else 0.0, abs(r))) / TRUST)
                 verdict, tol = _judge(gi, dres, atol, ACQ_RTOL)
                 if verdict == "inconclusive":
